@@ -21,7 +21,7 @@ def cfgs4(tier): return (['gcc-O0-c++17-abacus','gcc-O2-c++17-std','clang-O1-c++
 COMMON_ASSUMPTIONS = [
     "x86-64 Linux, g++ 12.2 / clang++ 14 with libstdc++ 12: other targets, compilers and standard libraries are not executed",
     "the explorer (oracle) is compiled separately with g++ -O2 and never includes /repo; __int128 and libquadmath are trusted",
-    "FE_TONEAREST, no -ffast-math, no FMA contraction in the shims",
+    "FE_TONEAREST, no -ffast-math (outside every property: the unchanged library is not NaN-safe under it); FMA contraction only where the compiler enables it by default (the -march=native configurations)",
 ]
 
 PROPS = {
